@@ -26,7 +26,7 @@ type c06Case struct {
 	Transports  []string `json:"transports"`
 	AllowUpg    bool     `json:"allow_upgrades"`
 	AllowEIO3   bool     `json:"allow_eio3"`
-	Initial     string   `json:"initial_packet"` // "" | strbuf | strreader | bytesbuf
+	Initial     string   `json:"initial_packet"` // "" | strbuf | strreader | bytesbuf | bytesreader (*bytes.Reader) | bytesbuffer (*bytes.Buffer)
 	Cookie      bool     `json:"cookie"`
 	Sessions    []c06Sess `json:"sessions"`
 	Seed        string   `json:"seed"`
@@ -46,7 +46,7 @@ func genC06(rng *rand.Rand) c06Case {
 		MaxPayload: []int64{1, 100, 4096, 65536, 1000000, 123456789}[rng.IntN(6)],
 		AllowUpg:   rng.IntN(4) != 0,
 		AllowEIO3:  rng.IntN(3) != 0,
-		Initial:    []string{"", "", "strbuf", "strreader", "bytesbuf"}[rng.IntN(5)],
+		Initial:    []string{"", "", "strbuf", "strreader", "bytesbuf", "bytesreader", "bytesbuffer"}[rng.IntN(7)],
 		Cookie:     rng.IntN(4) == 0,
 	}
 	sets := [][]string{{"polling", "websocket"}, {"polling"}, {"websocket"}, {"polling", "websocket", "webtransport"}, {"polling", "webtransport"}, {"websocket", "webtransport"}}
@@ -90,6 +90,12 @@ func runC06(c c06Case, r *rep.Report) (key, msg string, stats map[string]int64) 
 				so.SetInitialPacket(strings.NewReader(initText))
 			case "bytesbuf":
 				so.SetInitialPacket(types.NewBytesBufferString(initText))
+				initBin = true
+			case "bytesreader":
+				so.SetInitialPacket(bytes.NewReader([]byte(initText)))
+				initBin = true
+			case "bytesbuffer":
+				so.SetInitialPacket(bytes.NewBufferString(initText))
 				initBin = true
 			}
 			if c.Cookie {
@@ -269,6 +275,39 @@ func runC06(c c06Case, r *rep.Report) (key, msg string, stats map[string]int64) 
 					}
 				}
 				cl.Stop()
+				rig.Wait()
+			}
+			// overlapping sessions: several handshakes complete before any of the sessions fetches
+			// its first messages; every one of them must still get the initial packet
+			if c.Initial != "" && enabled["polling"] {
+				var cls []*rig.Client
+				for k := 0; k < 3; k++ {
+					cl, err := w.Connect(rig.ClientCfg{Rev: 4, Transport: "polling", NoAutoPong: true})
+					if err != nil {
+						key, msg = "c06-handshake-failed", fmt.Sprintf("overlapping session %d: %v", k, err)
+						return
+					}
+					cls = append(cls, cl)
+				}
+				rig.Wait()
+				// fetched in another order than opened
+				for _, k := range []int{1, 0, 2} {
+					cl := cls[k]
+					var first *refcodec.Packet
+					if rcv := cl.Received(); len(rcv) >= 2 {
+						first = &rcv[1].P
+					} else if ps, _, perr := cl.PollOnce(); perr == nil && len(ps) > 0 {
+						first = &ps[0]
+					}
+					stats["initial_packets_checked_overlapping_sessions"]++
+					if first == nil || first.Type != refcodec.Message || !bytes.Equal(first.Data, []byte(initText)) || first.Binary != initBin {
+						key, msg = "c06-initial-packet", fmt.Sprintf("three polling sessions opened before any of them polled (initial packet given as %s): session %d received %v as its first packet after open, want message %q binary=%v", c.Initial, k, first, initText, initBin)
+						return
+					}
+				}
+				for _, cl := range cls {
+					cl.Stop()
+				}
 				rig.Wait()
 			}
 		})
